@@ -34,6 +34,10 @@ func (ld *Loaded) staticScans(id string) []*FuncResult {
 				has = true
 			}
 		}
+		if has && fd.Kind == "nouse" {
+			out = append(out, ld.nouseScan(fd))
+			continue
+		}
 		if has && fd.Kind == "order" {
 			out = append(out, ld.orderScan(fd))
 			continue
@@ -283,6 +287,118 @@ func (ld *Loaded) orderScan(fd *FieldDecl) *FuncResult {
 	}
 	if nB == 0 {
 		o.Detail += "; FAILS: no call of " + fd.Arg + " found"
+	}
+	return &FuncResult{Key: "static:" + o.Name, Obls: []*Obligation{o}}
+}
+
+// nouseScan: ownership hand-over. The slice passed as argument i to the named callee (and every
+// slice it was cut from / that is cut from it) is not used by any instruction the call dominates.
+func (ld *Loaded) nouseScan(fd *FieldDecl) *FuncResult {
+	o := &Obligation{Name: shortStem(fd.Pkg, fd.Type) + "#alias:relinquished_after_" + sanitize(fd.Field), Kind: "frame", Static: true, Props: fd.Props}
+	key := qualifyFuncName(fd.Type, fd.Pkg)
+	var argi int
+	fmt.Sscanf(fd.Arg, "%d", &argi)
+	var bad []string
+	n := 0
+	for _, fn := range ld.fnByKey[key] {
+		for _, b := range fn.Blocks {
+			for i, in := range b.Instrs {
+				call, ok := in.(*ssa.Call)
+				if !ok {
+					continue
+				}
+				hit := false
+				for _, nme := range callNames(call) {
+					if nme == fd.Field || strings.HasSuffix(nme, "."+fd.Field) {
+						hit = true
+					}
+				}
+				if !hit || argi >= len(call.Call.Args) {
+					continue
+				}
+				n++
+				// alias set: walk backwards through slicing / phis / loads, then forwards through slicing
+				alias := map[ssa.Value]bool{}
+				cells := map[*ssa.Alloc]bool{}
+				var back func(v ssa.Value, d int)
+				back = func(v ssa.Value, d int) {
+					if v == nil || alias[v] || d > 6 {
+						return
+					}
+					alias[v] = true
+					switch vv := v.(type) {
+					case *ssa.Slice:
+						back(vv.X, d+1)
+					case *ssa.Phi:
+						for _, e := range vv.Edges {
+							back(e, d+1)
+						}
+					case *ssa.UnOp:
+						// a load from a local variable cell: the variable holds the buffer
+						if a, ok := vv.X.(*ssa.Alloc); ok {
+							cells[a] = true
+						}
+					}
+				}
+				back(call.Call.Args[argi], 0)
+				// every load of such a variable that the call dominates yields the same buffer
+				for _, b2 := range fn.Blocks {
+					for j, in2 := range b2.Instrs {
+						if u, ok := in2.(*ssa.UnOp); ok {
+							if a, ok := u.X.(*ssa.Alloc); ok && cells[a] {
+								if (b2 == b && j > i) || (b2 != b && b.Dominates(b2)) {
+									alias[u] = true
+								}
+							}
+						}
+					}
+				}
+				changed := true
+				for changed {
+					changed = false
+					for _, b2 := range fn.Blocks {
+						for _, in2 := range b2.Instrs {
+							if sl, ok := in2.(*ssa.Slice); ok && alias[sl.X] && !alias[sl] {
+								alias[sl] = true
+								changed = true
+							}
+						}
+					}
+				}
+				for _, b2 := range fn.Blocks {
+					for j, in2 := range b2.Instrs {
+						if in2 == in {
+							continue
+						}
+						dominated := (b2 == b && j > i) || (b2 != b && b.Dominates(b2))
+						if !dominated {
+							continue
+						}
+						if _, isDbg := in2.(*ssa.DebugRef); isDbg {
+							continue
+						}
+						if v2, ok := in2.(ssa.Value); ok && alias[v2] {
+							if _, isSl := in2.(*ssa.Slice); !isSl {
+								continue // the aliasing load itself; its users are checked
+							}
+						}
+						for _, op := range in2.Operands(nil) {
+							if *op != nil && alias[*op] {
+								bad = append(bad, in2.String())
+							}
+						}
+					}
+				}
+			}
+		}
+	}
+	o.StaticOK = len(bad) == 0 && n > 0
+	o.Detail = fmt.Sprintf("in %s the buffer passed as argument %d to %s is not used after the call (%d call sites)", fd.Type, argi, fd.Field, n)
+	if len(bad) > 0 {
+		o.Detail += "; FAILS: used by " + strings.Join(bad, "; ")
+	}
+	if n == 0 {
+		o.Detail += "; FAILS: no such call"
 	}
 	return &FuncResult{Key: "static:" + o.Name, Obls: []*Obligation{o}}
 }
